@@ -311,12 +311,14 @@ fn run_type<T: Tv>(idx: usize, rep: &mut Report, rng: &mut Rng, args: &Args) {
     run_pending(rep, &tname, pend);
 }
 
-fn trunc(mut s: String) -> String {
-    if s.len() > 400 {
-        s.truncate(400);
-        s.push_str("...");
+fn trunc(s: String) -> String {
+    if s.chars().count() > 400 {
+        let mut t: String = s.chars().take(400).collect();
+        t.push_str("...");
+        t
+    } else {
+        s
     }
-    s
 }
 
 fn value_classes(rep: &mut Report, e: &Enc) {
@@ -537,10 +539,16 @@ fn ser_of<S: CanonicalSerialize + ?Sized>(rep: &mut Report, what: &str, s: &S, c
     Some((w.buf, size))
 }
 
-fn check_same(rep: &mut Report, what: &str, tname: &str, c: Compress, got: Option<(Vec<u8>, usize)>, exp: &[u8]) {
+/// The wrapper must produce what its referent produces (`own`), which in turn must be the expected
+/// bytes; a defect of the referent's own serializer is reported by the container items, not here.
+fn check_same(rep: &mut Report, what: &str, tname: &str, c: Compress, got: Option<(Vec<u8>, usize)>, exp: &[u8], own: &Option<(Vec<u8>, usize)>) {
     let Some((bytes, size)) = got else { return };
     rep.class("serialize-only: Rc / & / &mut / &[T]");
     rep.eval(digest(&(what, tname, c == Compress::Yes, exp)), !exp.is_empty());
+    let inner_same = matches!(own, Some((b, s)) if *b == bytes && *s == size);
+    if inner_same {
+        return;
+    }
     if bytes != exp {
         rep.violation(
             format!("ser/container/{what}/encoding"),
@@ -561,27 +569,29 @@ fn ser_only_t<T: Tv + Clone>(rep: &mut Report, rng: &mut Rng, n: usize) {
             let mut e = Enc::new();
             val.enc(c, &mut e);
             let exp = e.bytes.clone();
+            let own = ser_of(rep, "referent", &val, c);
             let r = ser_of(rep, "ref", &&val, c);
-            check_same(rep, "ref", &tname, c, r, &exp);
+            check_same(rep, "ref", &tname, c, r, &exp, &own);
             let rc = Rc::new(val.clone());
             let r = ser_of(rep, "Rc", &rc, c);
-            check_same(rep, "Rc", &tname, c, r, &exp);
+            check_same(rep, "Rc", &tname, c, r, &exp, &own);
             let r = {
                 let m = &mut val;
                 ser_of(rep, "ref-mut", &m, c)
             };
-            check_same(rep, "ref-mut", &tname, c, r, &exp);
-            // slices: u64 length prefix followed by the elements
+            check_same(rep, "ref-mut", &tname, c, r, &exp, &own);
+            // slices: u64 length prefix followed by the elements (what the owning Vec produces)
             let mut es = Enc::new();
             es.bytes.extend_from_slice(&(items.len() as u64).to_le_bytes());
             for x in &items {
                 x.enc(c, &mut es);
             }
+            let own_vec = ser_of(rep, "referent", &items, c);
             let r = ser_of(rep, "slice", items.as_slice(), c);
-            check_same(rep, "slice", &tname, c, r, &es.bytes);
+            check_same(rep, "slice", &tname, c, r, &es.bytes, &own_vec);
             let sl: &[T] = items.as_slice();
             let r = ser_of(rep, "slice-ref", &sl, c);
-            check_same(rep, "slice-ref", &tname, c, r, &es.bytes);
+            check_same(rep, "slice-ref", &tname, c, r, &es.bytes, &own_vec);
         }
     }
 }
